@@ -90,10 +90,18 @@ async fn handle_connection(
             // handler set its own; no response query buffer either way.
             let echo = crate::message::response_echo_query(&resp, view.query);
             if let Some(dur) = write_timeout {
-                timeout(dur, write_view_response(&mut writer, &resp, echo))
-                    .await
-                    .ok();
-                timeout(dur, writer.flush()).await.ok();
+                // A response that cannot be written in time leaves a partial
+                // frame on the wire (or in the buffer): the connection can no
+                // longer carry whole frames, so close it, as a read timeout
+                // does, instead of writing later responses after the torn one.
+                match timeout(dur, write_view_response(&mut writer, &resp, echo)).await {
+                    Ok(r) => r?,
+                    Err(_) => return Ok(()),
+                }
+                match timeout(dur, writer.flush()).await {
+                    Ok(r) => r?,
+                    Err(_) => return Ok(()),
+                }
             } else {
                 write_view_response(&mut writer, &resp, echo).await?;
                 writer.flush().await?;
